@@ -153,6 +153,13 @@ func runProm(tt *testing.T, tape *simrt.Tape, keep bool) (out simrt.Outcome) {
 		// label values that are prefixes of one another / collide when label values are concatenated without a separator
 		urls := []string{"http://a/", "http://b/x", "http://c/?q=1", "http://c/?q=120", "http://c/?q=1 200", "http://c/?q=12"}
 		errs := []string{"500 Internal Server Error", "Get \"http://a/\": EOF", "timeout"}
+		if tape.Prob(1, 6) {
+			// long error texts that agree in their first few hundred bytes (net/http quotes the whole URL in front of
+			// the cause), one of them with a multi-byte character at a round offset
+			long := "Get \"http://a/" + strings.Repeat("segment/", 20+tape.Choose(30)) + "\": "
+			errs = append(errs, long+"connection refused", long+"context deadline exceeded", strings.Repeat("x", 250+tape.Choose(10))+"\u00e9\u00e9\u00e9\u00e9 tail")
+			stats["probe.long-error-texts"]++
+		}
 		lats := []time.Duration{0, time.Millisecond, 5 * time.Millisecond, 5*time.Millisecond + 1, 10 * time.Millisecond, 250 * time.Millisecond, time.Second, 2500 * time.Millisecond, 10 * time.Second, 11 * time.Second, time.Hour, 4999999 * time.Nanosecond}
 		wide := total >= 500 && tape.Prob(1, 2)
 		results := make([]*vegeta.Result, total)
